@@ -215,6 +215,15 @@ func verifC12(in []byte, cut int) {
 		w.Feed(target, []byte("$2\r\nho\r\n"))
 	}
 	verifrt.Assert(bytes.Equal(w.Sent(ok), []byte("$2\r\nhi\r\n$2\r\nho\r\n$2\r\nho\r\n")) && ok.Opened(), "bystander_served_again_and_again")
+	// ... also with a pipeline of four requests, which takes four request objects out of the pool at once
+	// (the pool hands out the most recently recycled first: the bystander's own, then the offender's)
+	one := []byte("*2\r\n$3\r\nget\r\n$1\r\nb\r\n")
+	w.Feed(ok, append(append(append(append([]byte{}, one...), one...), one...), one...))
+	w.RunTasks()
+	for i := 0; i < 4; i++ {
+		w.Feed(target, []byte("$2\r\nh"+string(rune('1'+i))+"\r\n"))
+	}
+	verifrt.Assert(bytes.Equal(w.Sent(ok), []byte("$2\r\nhi\r\n$2\r\nho\r\n$2\r\nho\r\n$2\r\nh1\r\n$2\r\nh2\r\n$2\r\nh3\r\n$2\r\nh4\r\n")) && ok.Opened(), "bystander_pipeline_served_connection_open")
 	verifrt.Cover("end", true)
 }
 
